@@ -6,7 +6,7 @@
    publication order the code has) and Gen/IndenterHoles.v are regenerated from lark's source. *)
 From Coq Require Import ZArith List Bool String Ascii Arith.
 From LV Require Import Base.Prelude Sys.IndenterBase Gen.IndenterHoles Sys.Indenter
-     Inst.IndSteps Inst.IndSteps_proofs Inst.Instance Inst.Instance_proofs
+     Inst.IndSteps Inst.IndSteps_proofs Inst.Instance Inst.Instance_proofs Inst.World Inst.World_proofs
      Inst.ThreadsBase Gen.InstOrder Inst.Threads Inst.Threads_proofs
      Inst.MiniLex Inst.InstCheck Inst.InstExamples.
 Import ListNotations.
@@ -61,6 +61,57 @@ Print Assumptions C10_coherent_inv.
 Print Assumptions C10_history.
 Print Assumptions C10_history_pure.
 Print Assumptions C10_per_call_state_fresh.
+
+Section Process.
+(* the process: all instances created so far and lark's own process-wide cell (the grammar-of-grammars parser) *)
+Variables Conf Sc CB LexSt Err Text : Type.
+Variable mk_scanner : Conf -> Sc.
+Variable mk_callback : Conf -> CB.
+Variable mk_search : Conf -> Sc.
+Variable at_end : LexSt -> bool.
+Variable ntfuel : LexSt -> nat.
+Variable init_ls : Text -> nat -> LexSt.
+Variable iter : Conf -> Sc -> CB -> LexSt -> iter_res LexSt Err.
+Variable search : Sc -> Text -> nat -> option nat.
+Variable sc_want : Text -> nat -> list tok -> bool.
+Variable sc_end : Text -> nat -> list tok -> pend Err -> option nat.
+Variables GP Src : Type.
+Variable mk_gp : GP.
+Variable compile : GP -> Src -> option (iconf Conf).
+
+Let wstep := wstep mk_scanner mk_callback mk_search at_end ntfuel init_ls iter search sc_want sc_end mk_gp compile.
+Let wrun := wrun mk_scanner mk_callback mk_search at_end ntfuel init_ls iter search sc_want sc_end mk_gp compile.
+Let op_pure := op_pure mk_scanner mk_callback mk_search at_end ntfuel init_ls iter search sc_want sc_end.
+
+(* Other instances: after any history of the process - other instances constructed (successfully or not) and used in
+   any way, earlier calls on this one - a call on an instance delivers the pure function of that instance's own
+   configuration and the call's arguments. *)
+Theorem C10_other_instances (fuel : nat) (h : list (wevent Text Src)) (i : nat) (cf : iconf Conf) (s : inst Sc CB) (o : op Text) :
+  nth_error (w_insts (wrun fuel (world0 Conf Sc CB GP) h)) i = Some (cf, s) ->
+  snd (wstep fuel (wrun fuel (world0 Conf Sc CB GP) h) (WCall Src i o)) = WResult (op_pure fuel cf o).
+Proof. apply other_instances. Qed.
+
+(* Construction after any history: fails, or yields a fresh instance whose configuration is what compiling the source
+   with the constant grammar-of-grammars parser gives. *)
+Theorem C10_construction_pure (fuel : nat) (h : list (wevent Text Src)) (src : Src) :
+  let w := wrun fuel (world0 Conf Sc CB GP) h in
+  match compile mk_gp src with
+  | None => snd (wstep fuel w (WNew Text src)) = WFailed _
+  | Some cf => snd (wstep fuel w (WNew Text src)) = WCreated _ (List.length (w_insts w)) /\
+               nth_error (w_insts (fst (wstep fuel w (WNew Text src)))) (List.length (w_insts w)) = Some (cf, fresh Sc CB)
+  end.
+Proof. apply construction_pure. Qed.
+
+(* No event of the process changes the configuration of an existing instance. *)
+Theorem C10_configuration_immutable (fuel : nat) (e : wevent Text Src) (w : world Conf Sc CB GP) (i : nat)
+        (cf : iconf Conf) (s : inst Sc CB) :
+  nth_error (w_insts w) i = Some (cf, s) ->
+  exists s', nth_error (w_insts (fst (wstep fuel w e))) i = Some (cf, s').
+Proof. apply configuration_immutable. Qed.
+End Process.
+Print Assumptions C10_other_instances.
+Print Assumptions C10_construction_pure.
+Print Assumptions C10_configuration_immutable.
 
 (* The per-yield Indenter model used above is the regenerated C18 model with the states kept. *)
 Theorem C10_indenter_yields_agree cfg ts st : forget (run_steps cfg st ts) = Indenter.run cfg st ts.
@@ -138,3 +189,18 @@ Example C10_example_threads :
   = [[("NAME"%string, TApplied CChain); ("WS"%string, TDropped)]; [("NUM"%string, TApplied CUser)];
      [("NAME"%string, TApplied CChain)]].
 Proof. vm_compute. reflexivity. Qed.
+
+(* ... and a process with two instances: an indentation-sensitive one and a flat one without post-lexer are created and
+   used alternately (abandoned and failing calls included); the probe on the first equals the pure function *)
+Definition ex_cf2 : iconf lconf := basic_conf ex_lconf None false true.
+Definition ex_events : list (wevent string (iconf lconf)) :=
+  [ WNew string ex_cf; WCall _ 0 (op_of (DLex t_block (Some 3))); WNew string ex_cf2;
+    WCall _ 1 (op_of (DParse "( a ?" None)); WCall _ 0 (op_of (DParse "( a ( b" (Some 4))); WCall _ 1 (op_of (DScan "a ( b" (Some 1))) ].
+Example C10_example_process :
+  let step := wstep MiniLex.mk_scanner MiniLex.mk_callback MiniLex.mk_search MiniLex.at_end MiniLex.ntfuel MiniLex.init_ls
+                    MiniLex.iter ssearch c_sc_want c_sc_end tt (fun _ cf => Some cf) in
+  let w := fold_left (fun w e => fst (step 50 w e)) ex_events (world0 lconf scanner cbtable unit) in
+  List.length (w_insts w) = 2 /\
+  snd (step 50 w (WCall _ 0 ex_probe)) = WResult (snd (c_run_op 50 ex_cf (fresh _ _) ex_probe)) /\
+  option_map (fun p => ind (snd p)) (nth_error (w_insts w) 0) = Some (mkSt 2 [0%Z]).
+Proof. vm_compute. repeat split; reflexivity. Qed.
